@@ -37,6 +37,7 @@ func main() {
 		{"PointIndexGen.v", genPointIndex},
 		{"LineGen.v", genLine},
 		{"ChildrenGen.v", genChildren},
+		{"KmpGen.v", genKmp},
 		{"TmsData.v", genTmsData},
 		{"CliGen.v", genCli},
 	}
